@@ -834,3 +834,8 @@ def cguard_facts(fnode, node):
         t = canon_ast(fnode, ft.test, origin)
         out.extend(expand_facts([Fact(t, ft.pol, ft.origin, ft.kind)]))
     return out
+
+
+def ctext(fnode, text, at):
+    """canonical form of an expected expression given as text (so that both sides of a comparison are canonical)"""
+    return norm(canon_ast(fnode, ast.parse(text, mode="eval").body, at))
